@@ -418,6 +418,10 @@ func suiteTtml(R *runner, r *rng) {
 		o.NT = len(d.V.Styles) > 0 || nl > 1
 		R.add(o)
 	}
+	for k, v := range ttFreedoms {
+		R.countN("ttml.freedom."+k, v)
+	}
+	ttFreedoms = map[string]int{}
 	// crafted documents (regressions of what the checks found, one concern each)
 	for _, cd := range ttCorpus {
 		o := ttReadObs(cd.doc, nil, "ttml.read.corpus", map[string]interface{}{"doc": cd.doc, "note": cd.note})
